@@ -41,9 +41,10 @@ class Env:
                 cls.var_names = set(environ)
 
                 if cls._accessed_cleaned_to_env:
+                    # rebuild the mapping, as another spelling of a removed
+                    # variable can still be present in the environment.
                     cls.cleaned_to_env = {
-                        k: v for k, v in cls.cleaned_to_env.items()
-                        if v in cls.var_names
+                        clean(var): var for var in cls.var_names
                     }
 
     @cached_class_property
